@@ -174,7 +174,7 @@ class CircuitExec {
 
   void protocolAfter(Circuit &c, int opIndex, const std::string &how);
   void pokeInCallback(Circuit &c, int opIndex, int k);
-  void badCall(Circuit &c, int opIndex, int kind, long long variant, bool inCallback);
+  void badCall(Circuit &c, int opIndex, int kind, long long variant, bool inCallback, const ParamSpec *ctx = nullptr);
   void doPerturb(Circuit &c, const Op &op);
   void doSetOrient(Circuit &c, const Op &op);
   void enumerateThrows(Circuit &c, int opIndex, const Op &op);
@@ -238,7 +238,12 @@ CircuitExec::StageRun CircuitExec::runStage(Circuit &c, int opIndex, const Op &o
   ParamSpec ps = op.params;
   if (ps.effort < 1 || ps.effort > 9) ps.effort = 3;
   ColoquinteParameters params = buildParams(ps);
-  r.paramsRejected = !paramsPassCheck(params);
+  r.paramsRejected = !refParamsValid(params);
+  if (r.paramsRejected && paramsPassCheck(params)) {
+    std::string why;
+    refParamsValid(params, &why);
+    verdict("C19", "rejected-params-accepted", tag + ": *Parameters::check() accepts a parameter set outside the documented ranges (" + why + ")", opIndex);
+  }
   Domain dom = classify(r.pre, fsPre, params.global.roughLegalization.sideMargin);
   bool moderate = paramsModerate(params);
   long long budget = callbackBudget(stage, params);
@@ -804,7 +809,7 @@ void CircuitExec::pokeInCallback(Circuit &c, int opIndex, int k) {
 }
 
 // ------------------------------------------------------ bad calls (C19) ---
-void CircuitExec::badCall(Circuit &c, int opIndex, int kind, long long variant, bool inCallback) {
+void CircuitExec::badCall(Circuit &c, int opIndex, int kind, long long variant, bool inCallback, const ParamSpec *ctx) {
   CrashMarker *mk = crashMarker();
   int savedKind = mk->opKind, savedSub = mk->sub;
   mk->opKind = OP_BADCALL;
@@ -875,17 +880,29 @@ void CircuitExec::badCall(Circuit &c, int opIndex, int kind, long long variant, 
       int i2 = (int)((v / 3 / nb) % (nb + 1));  // nb: no second field
       ColoquinteParameters p(1 + (int)((v / 7) % 9));
       p.global.maxNbSteps = 3;
+      // valid, non-default context taken from the plan (the op's parameter overrides)
+      if (ctx) {
+        ColoquinteParameters q = p;
+        for (auto &kv : ctx->ov) applyOverride(q, kv.first, kv.second);
+        if (refParamsValid(q)) p = q;
+      }
       applyOverride(p, bads[i1].key, bads[i1].v);
       name = std::string(st == 0 ? "placeGlobal" : st == 1 ? "legalize" : "placeDetailed") + " with " + bads[i1].key + "=" + std::to_string(bads[i1].v);
       if (i2 < nb) {
         applyOverride(p, bads[i2].key, bads[i2].v);
         name += std::string(" and ") + bads[i2].key + "=" + std::to_string(bads[i2].v);
       }
-      if (paramsPassCheck(p)) {
-        // combination happens to be acceptable (second field repaired the first): not a bad call
-        mk->opKind = savedKind;
-        mk->sub = savedSub;
-        return;
+      {
+        std::string why;
+        if (refParamsValid(p, &why)) {
+          // combination happens to be acceptable (second field repaired the first): not a bad call
+          mk->opKind = savedKind;
+          mk->sub = savedSub;
+          return;
+        }
+        name += " [" + why + "]";
+        // keep the run short if the library wrongly goes ahead
+        if (p.global.maxNbSteps > 3) p.global.maxNbSteps = 3;
       }
       PlacementCallback cbk = [&](PlacementStep) { callbackInvoked = true; };
       o = guarded([&] {
@@ -1188,7 +1205,7 @@ void CircuitExec::run() {
         break;
       }
       case OP_BADCALL:
-        badCall(*c, i, op.args.size() > 0 ? (int)op.args[0] : 0, op.args.size() > 1 ? op.args[1] : 0, false);
+        badCall(*c, i, op.args.size() > 0 ? (int)op.args[0] : 0, op.args.size() > 1 ? op.args[1] : 0, false, &op.params);
         break;
       case OP_COPY: {
         copyHolder.emplace(*c);
